@@ -241,4 +241,7 @@ def region (cmd : Cmd) (pkg : Pkg) (fl : Flags) : Region :=
     | none => .Out
   else .Out
 
+/-- the string has no path separator: joined to a directory it names an entry OF that directory -/
+def noSep (s : String) : Bool := !s.toList.contains '/'
+
 end ShootVerif.Cli
